@@ -353,7 +353,7 @@ pub fn struct_Authentication(mir_spec: &HirSpec, opt: &Config) -> TokenStream {
         }
         AuthStrategy::OAuth2(_) => {
             quote! {
-                OAuth2 { middleware: Arc<httpclient_oauth2::OAuth2> }
+                OAuth2 { middleware: std::sync::Arc<httpclient_oauth2::OAuth2> }
             }
         }
         AuthStrategy::NoAuth => {
@@ -439,7 +439,7 @@ pub fn impl_Authentication(spec: &HirSpec, opt: &Config) -> TokenStream {
             quote! {
                 pub fn oauth2(access: String, refresh: String) -> Self {
                     let mw = shared_oauth2_flow().bearer_middleware(access, refresh);
-                    Self::OAuth2 { middleware: Arc::new(mw) }
+                    Self::OAuth2 { middleware: std::sync::Arc::new(mw) }
                 }
             }
         })
